@@ -161,10 +161,21 @@ func runC05(sc c05Scen) (*lncrun.Session, [2]int, error) {
 	close(stopBreaks)
 	bwg.Wait()
 	s.Rec.Emit("faultsEnd", "forever", b2i(sc.faultFor < 0))
-	wg.Wait()
+	// the writers finish (or fail) within the patience bound - a Write that
+	// neither returns nor fails is a transfer that neither completes nor
+	// fails visibly
+	wdone := make(chan struct{})
+	go func() { wg.Wait(); close(wdone) }()
+	writersDone := true
+	select {
+	case <-wdone:
+	case <-time.After(120 * time.Second):
+		writersDone = false
+		s.Rec.Emit("note", "what", "a Write call is still blocked 120 s after the faults ended")
+	}
 	// completion, or visible failure on both ends
-	okC := srv.AwaitRead(c.Written(), 90*time.Second)
-	okS := c.AwaitRead(srv.Written(), 90*time.Second)
+	okC := writersDone && srv.AwaitRead(c.Written(), 90*time.Second)
+	okS := writersDone && c.AwaitRead(srv.Written(), 90*time.Second)
 	complete := okC && okS && werr[0] == nil && werr[1] == nil
 	if !complete {
 		downC := c.AwaitDown(60 * time.Second)
